@@ -75,6 +75,8 @@ Section Spec.
   Variable touch : St -> string -> St.
   (* what an include directive denotes, given the document it appears in *)
   Variable resolve : cur -> string -> err E + (cur * fcontent plain).
+  (* CompilerParams::disable_includes: every directive is an error *)
+  Variable disabled : bool.
 
   Inductive item := IPlain (x : plain) | IErr (e : err E).
 
@@ -101,7 +103,8 @@ Section Spec.
       Inl (S n) c (inl name :: cs) (xs ++ ys).
 
   (* Executable inlining with a nesting bound and error markers where inlining is
-     undefined: unresolvable directive, unparsable / unreadable target, nesting too deep. *)
+     undefined: includes disabled, nesting too deep, unresolvable directive, unparsable /
+     unreadable target (checked in this order, the order of the compiler). *)
   Definition doc_items (inl_cs : cur -> list (string + plain) -> list item)
              (c : cur) (doc : fcontent plain) : list item :=
     match doc with
@@ -116,14 +119,15 @@ Section Spec.
     | [] => []
     | inr x :: rest => IPlain x :: inline_cs rec c rest
     | inl name :: rest =>
-        match rec with
-        | None => [IErr ETooDeep]
-        | Some r =>
-            match resolve c name with
-            | inl e => [IErr e]
-            | inr (c', doc) => doc_items r c' doc
-            end
-        end ++ inline_cs rec c rest
+        (if disabled then [IErr EUnauthorized] else
+         match rec with
+         | None => [IErr ETooDeep]
+         | Some r =>
+             match resolve c name with
+             | inl e => [IErr e]
+             | inr (c', doc) => doc_items r c' doc
+             end
+         end) ++ inline_cs rec c rest
     end.
 
   (* `inline d`: at most d nested directives *)
